@@ -100,14 +100,109 @@ func sigPool() map[int][][]byte {
 	return sigByLen
 }
 
+// algPool: the distinct AlgorithmIdentifier encodings found in the corpus (inner and outer positions).
+var algIDs []*dt.Node
+
+func algPool() []*dt.Node {
+	if algIDs != nil {
+		return algIDs
+	}
+	seen := map[string]bool{}
+	for _, o := range gen.LoadCorpus().Certs {
+		if v, err := gen.ViewCert(o.DER); err == nil {
+			for _, a := range []*dt.Node{v.InnerAlg(), v.OuterAlg()} {
+				k := string(a.Encode())
+				if !seen[k] && len(k) < 200 {
+					seen[k] = true
+					algIDs = append(algIDs, a)
+				}
+			}
+		}
+	}
+	sort.Slice(algIDs, func(i, j int) bool { return string(algIDs[i].Encode()) < string(algIDs[j].Encode()) })
+	return algIDs
+}
+
 func TestC09(t *testing.T) {
 	rec := newRec(t, "C09")
+	// enumerated: every (inner, outer) pair of AlgorithmIdentifier encodings of the corpus - equal or not,
+	// RSA-PSS parameters, ECDSA, EdDSA, legacy - on two non-self-issued certificates, each with three
+	// replacement signatures: a lint that compares or quotes the two identifiers must not reach into the
+	// signature bits that follow them
+	{
+		co := gen.LoadCorpus()
+		var bases []gen.Obj
+		for _, o := range co.Certs {
+			if pc, ok := gen.ParseCert(o.DER); ok && !bytes.Equal(pc.RawIssuer, pc.RawSubject) && !pc.IsCA && pc.NotBefore.Year() >= 2019 && len(pc.Signature) >= 64 {
+				bases = append(bases, o)
+				if len(bases) == 2 {
+					break
+				}
+			}
+		}
+		pool := algPool()
+		k := 0
+		for _, b := range bases {
+			for i, inner := range pool {
+				for j, outer := range pool {
+					k++
+					if !stats.Mine(k) {
+						continue
+					}
+					v, err := gen.ViewCert(b.DER)
+					if err != nil {
+						continue
+					}
+					v.SetInnerAlg(inner.Clone())
+					v.SetOuterAlg(outer.Clone())
+					ref := v.DER()
+					old := v.Signature().Body()
+					for _, how := range []string{"all-zero", "all-one", "counting"} {
+						nb := append([]byte{}, old...)
+						for x := 1; x < len(nb); x++ {
+							switch how {
+							case "all-zero":
+								nb[x] = 0
+							case "all-one":
+								nb[x] = 0xff
+							default:
+								nb[x] = byte(x)
+							}
+						}
+						v2, _ := gen.ViewCert(ref)
+						v2.Root.Children[2] = dt.Prim(0, 3, nb)
+						c := c09Case{DER: ref, DER2: v2.DER(), Base: b.Name, Ops: []string{fmt.Sprintf("inner-alg=#%d outer-alg=#%d", i, j)}, How: how}
+						rec.Eval()
+						rec.Class("alg_pairs_enumerated")
+						if sig, msg := judgeC09(rec, c); msg != "" {
+							if rec.Report("c09", sig, msg, c) {
+								t.Fatalf("c09 %s inner #%d outer #%d %s: %s: %s", b.Name, i, j, how, sig, msg)
+							}
+						}
+					}
+				}
+			}
+		}
+		rec.Note("alg-pairs", fmt.Sprintf("%d distinct AlgorithmIdentifier encodings x themselves on %d bases x 3 signatures", len(pool), len(bases)))
+	}
 	rapidRun(t, "resign", perShard(stats.Scale(15000, 600000)), func(rt *rapid.T) {
 		cc := gen.DrawCert(rt, 3, true)
 		v, err := gen.ViewCert(cc.DER)
 		if err != nil {
 			rec.Class("no_view")
 			return
+		}
+		if rapid.IntRange(0, 3).Draw(rt, "algswap") == 0 {
+			// other algorithm identifiers in the inner and / or outer position (both sides of the pair)
+			pool := algPool()
+			if rapid.Bool().Draw(rt, "swapinner") {
+				v.SetInnerAlg(pool[rapid.IntRange(0, len(pool)-1).Draw(rt, "inneralg")].Clone())
+			}
+			if rapid.Bool().Draw(rt, "swapouter") {
+				v.SetOuterAlg(pool[rapid.IntRange(0, len(pool)-1).Draw(rt, "outeralg")].Clone())
+			}
+			cc.DER = v.DER()
+			cc.Ops = append(cc.Ops, "alg-identifiers-swapped")
 		}
 		old := v.Signature().Body()
 		if len(old) < 2 {
